@@ -25,7 +25,8 @@ CAUSE_NAMES = ['normal', 'body-raises', 'child-fails', 'until-time', 'until-flag
                'owner-cancelled', 'owner-closed']
 
 
-def fam_scope(E, causes, nested=True, volatile=True, late=True, indiv=False, real=False, pmax=2):
+def fam_scope(E, causes, nested=True, volatile=True, late=True, indiv=False, real=False, pmax=2,
+              until_owner=False):
     cause = causes[E.pick('cause', len(causes))]
     b = E.num('b', 0, 30, real=real)          # body duration
     da = E.num('da', 0, 30, real=real)        # child A duration
@@ -40,6 +41,7 @@ def fam_scope(E, causes, nested=True, volatile=True, late=True, indiv=False, rea
     log = Log()
     err = UserErr('cause')
     flag = Flag()
+    never = Flag()
     S = {}            # shared handles
 
     async def late_sibling():
@@ -100,6 +102,9 @@ def fam_scope(E, causes, nested=True, volatile=True, late=True, indiv=False, rea
             scope = until(time == c)
         elif cause == UNTIL_FLAG:
             scope = until(flag)
+        elif until_owner:
+            # an until-scope whose notification never fires: left by the other causes only
+            scope = until(never)
         else:
             scope = Scope()
         S['scope'] = scope
@@ -285,6 +290,17 @@ FAMILIES = [
            thorough=dict(causes=ALL, nested=False, late=True, indiv=True, pmax=3),
            reach=CAUSE_NAMES + ['graceful', 'aborted', 'late-spawn'],
            bounds='children A(+L), V; all 7 causes'),
+    Family('flat_indiv', fam_scope,
+           quick=dict(causes=[NORMAL, BODY_RAISES, UNTIL_TIME, OWNER_CLOSED], nested=False,
+                      late=False, indiv=True),
+           reach=['graceful', 'aborted'],
+           bounds='child A individually cancelled by the body at x (also in the very step in '
+                  'which the block is left)'),
+    Family('until_owner', fam_scope,
+           quick=dict(causes=[NORMAL, BODY_RAISES, CHILD_FAILS, OWNER_CANCELLED, OWNER_CLOSED],
+                      nested=False, late=False, until_owner=True),
+           reach=['graceful', 'aborted'],
+           bounds='the scope is an until-scope on a notification that never fires'),
     Family('nested', fam_scope,
            quick=dict(causes=[NORMAL, CHILD_FAILS, UNTIL_TIME, OWNER_CANCELLED, OWNER_CLOSED],
                       nested=True, late=False),
